@@ -50,7 +50,7 @@ def as_iterable(items, form):
     return reversed(list(reversed(items)))
 
 
-def perform(o, family, form=0, quiet=False):
+def perform(o, family, form=0, quiet=False, reuse=False):
     """Run the call of observation/vector `o` on fresh objects of `family`; return the observation of the real code.
 
     quiet: the harness reads nothing between building the pre-state and the end of the call (no snapshots inside hooks, no
@@ -60,8 +60,10 @@ def perform(o, family, form=0, quiet=False):
 
     k = o["k"]
     skip = (o["n"],) if k == "ct" else ()
+    steps = []
     try:
-        steps = N.build_forest(family, o["prepar"], o["prech"], skip=skip)
+        if not reuse:       # reuse: the call continues a history on the live objects of the previous call
+            steps = N.build_forest(family, o["prepar"], o["prech"], skip=skip)
     except Exception as e:  # noqa: building through the public API failed -- an observation, too
         N.Ctx.log = None
         return {"build_failed": True, "steps": [], "built": "raised %s: %s" % (type(e).__name__, str(e)[:200]), "exc": "Other:" + type(e).__name__}
@@ -256,4 +258,58 @@ def replay_chunk_quiet(args):
                 out["attention"].append({"family": fam, "pred": pred, "obs": obs, "flags": {k: vec[k] for k in ("c01", "c02", "c03", "c03a", "c16")}, "why": "quiet"})
             else:
                 out["dropped"] += 1
+    return out
+
+
+@core.safe_worker
+def replay_chains(args):
+    """Histories generated by tlc -simulate (MC_OpsSim): consecutive lines whose pre-state is the previous line's post-state
+    are replayed on the *same live objects*; the forest is rebuilt only where a chain starts or the code left the model."""
+    import json
+    import zlib
+    from . import nodes as N
+
+    lines, families = args
+    out = {"n": 0, "same": 0, "known": {}, "attention": [], "per_family": {}, "recursion": 0, "lockstep_diff": [], "dropped": 0,
+           "pcs": set(), "continued": 0, "longest_chain": 0}
+    vecs = [json.loads(json.loads(line)) for line in lines]
+    for fam in families:
+        tracked, chain = None, 0
+        for line, vec in zip(lines, vecs):
+            pred = expand(vec["o"])
+            out["pcs"].update(pred["pcs"])
+            flags = {k: vec[k] for k in ("c01", "c02", "c03", "c03a", "c16")}
+            reuse = tracked is not None and tracked == (pred["prepar"], pred["prech"])
+            chain = chain + 1 if reuse else 1
+            out["longest_chain"] = max(out["longest_chain"], chain)
+            out["continued"] += reuse
+            out["n"] += 1
+            out["per_family"][fam] = out["per_family"].get(fam, 0) + 1
+            try:
+                obs = core.call_with_deadline(lambda: perform(pred, fam, zlib.crc32(line.encode()) % 6, reuse=reuse))
+            except core.Hang:
+                obs = dict(pred, exc="Other:Hang", src=0, log=[], build_failed=False)
+            tracked = None
+            obs["chain_position"] = chain
+            if obs.get("build_failed"):
+                if len(out["attention"]) < 40:
+                    out["attention"].append({"family": fam, "pred": pred, "obs": obs, "flags": flags, "why": "build"})
+                continue
+            if same(pred, obs):
+                out["same"] += 1
+                if pred["exc"] == "RecursionError":
+                    out["recursion"] += 1       # (where the recursion limit strikes is not modelled: the next call starts afresh)
+                else:
+                    tracked = (pred["postpar"], pred["postch"])
+                if not flags["c03"]:
+                    key = "+".join(pred["marks"]) or "unmarked"
+                    kf = out["known"].setdefault(key, {"count": 0, "witness": None})
+                    kf["count"] += 1
+                    if kf["witness"] is None:
+                        kf["witness"] = {"family": fam, "pred": strip_snap(pred)}
+            elif len(out["attention"]) < 40:
+                out["attention"].append({"family": fam, "pred": pred, "obs": obs, "flags": flags, "why": "differs"})
+            else:
+                out["dropped"] += 1
+    out["pcs"] = sorted(out["pcs"])
     return out
